@@ -9,6 +9,10 @@ import trace as tr
 def canon_value(v):
     if isinstance(v, str):
         return "s:" + enc(v)
+    if v is None:
+        return "t:-"
+    if hasattr(v, "tm_year"):
+        return "t:" + ",".join(str(x) for x in tuple(v))
     if isinstance(v, dict) and all(isinstance(x, str) for x in dict.values(v)):
         return "d:(" + ",".join(sorted("%s=%s" % (enc(k), enc(dict.__getitem__(v, k))) for k in dict.keys(v))) + ")"
     return "?" + type(v).__name__
@@ -75,8 +79,12 @@ def lines_for(log, loose, result):
                 break
             # joins performed while this end tag was processed
             joins, j = [], i + 1
-            while j < len(run) and run[j]["k"] == "join":
-                joins.append("J:%s|%s" % (enc(run[j]["uri"]), enc(run[j]["result"])))
+            while j < len(run) and run[j]["k"] in ("join", "date"):
+                if run[j]["k"] == "join":
+                    joins.append("J:%s|%s" % (enc(run[j]["uri"]), enc(run[j]["result"])))
+                else:
+                    # what the real _parse_date answered for this element's text (M-date's subject; a parameter here)
+                    joins.append("D:" + (",".join(str(x) for x in run[j]["result"]) if run[j]["result"] else "-"))
                 j += 1
             lines.append(("mix stop %s %s" % (enc(rec["tag"]), " ".join(joins))).rstrip())
             exp.append(state_str(rec["post"]))
